@@ -11,6 +11,7 @@ if [ ! -d "$WT/.git" ] && [ ! -f "$WT/.git" ]; then
   git -C /repo worktree prune
   git -C /repo worktree add --detach "$WT" HEAD >/dev/null 2>&1 || { echo "cannot create worktree"; exit 2; }
 fi
+git -C "$WT" checkout -q -- . && git -C "$WT" clean -fdq && git -C "$WT" checkout -q --detach "$(git -C /repo rev-parse HEAD)"
 rc=0
 for P in "$@"; do P=$(readlink -f "$P")
   git -C "$WT" checkout -q -- . && git -C "$WT" clean -fdq
